@@ -85,6 +85,10 @@ impl<I: SendmsgSyscall> SendmsgSyscall for NioSendmsgSyscall<I> {
             }
             let error_kind = Error::last_os_error().kind();
             if error_kind == ErrorKind::WouldBlock {
+                if !blocking {
+                    // the caller asked for a non-blocking descriptor: report it at once
+                    break;
+                }
                 //wait write event
                 left_time = start_time
                     .saturating_add(send_time_limit(fd))
